@@ -759,6 +759,10 @@ class SsbGraphMinimizer:
                     in_edges = v.in_edges()
                     out_edges = v.out_edges()
                     if len(in_edges) == 0:
+                        if v.index == 0:
+                            # The entry point of the routine. Writing starts at the first vertex, which has to stay the
+                            # first vertex: after this label there may be vertices that can not be reached at all.
+                            continue
                         vs_to_delete.add(v)
                     elif len(in_edges) == 1:
                         assert len(out_edges) == 1
